@@ -291,7 +291,13 @@ func (c14) Execute(h *core.History) *core.Outcome {
 		case "bind", "func":
 			r := sess.Input(e.Text, nil)
 			if r.Class != "value" {
-				st.Discarded = true
+				if e.Ev == "bind" {
+					// value sources are fixed texts of the generator, valid by construction
+					report(&core.Violation{Oracle: "binding-accepted", Event: i, Sig: "C14|binding-rejected|" + e.Key,
+						Detail: fmt.Sprintf("%q gives %s %v", trunc(e.Text, 200), r.Class, truncAll(r.Errs))})
+					break
+				}
+				st.Discarded = true // functions come from the random grammar: after shrinking a callee may be gone
 				st.Panic(fmt.Sprintf("bind %q: %s %v", trunc(e.Text, 100), r.Class, truncAll(r.Errs)))
 				break
 			}
